@@ -25,6 +25,7 @@ TH_SESSION = ['RB.Denoise.c20_restore_once', 'RB.Denoise.c20_noD_silent',
 TH_PAR = ['RB.Denoise.c20_par_restore_once', 'RB.Denoise.c20_interleave_perm']
 TH_DPY = ['RB.Denoise.c20_denoise_restore_undoes', 'RB.Denoise.c20_denoise_roundtrip_standard',
           'RB.Denoise.c20_denoise_restore_only_to_standard', 'RB.Denoise.c20_denoise_shield_reset_only_if_reported']
+TH_EXEC = ['RB.Denoise.c20_flags_roundtrip', 'RB.Denoise.c20_exec_as_granted', 'RB.Denoise.c20_exec_both']
 TH_WRAP = ['RB.Denoise.c20_wrap_spec', 'RB.Denoise.c20_wrap_none', 'RB.Denoise.c20_caps_as_reported']
 TH_SHIELD = ['RB.Denoise.c20_shield_range', 'RB.Denoise.c20_shield_range_real', 'RB.Denoise.c20_shieldLo_is_floor_log',
              'RB.Denoise.c20_shield_within_cores']
@@ -493,6 +494,71 @@ def check_cli(ck, scenarios):
                         {'trace': head, 'ending': ending}, ans, TH_SESSION)
 
 
+# ------------------------------------------------- the exec side: `denoise.py … exec -- cmd`
+def gen_exec_cases(ck):
+    rng = ck.rng
+    out = []
+    for nice, shield in ((True, True), (True, False), (False, True)):
+        for cset_mode in ('path', 'lookup', 'none'):
+            for prof in (False, True):
+                out.append({'kind': 'exec', 'nice': nice, 'shield': shield, 'cset_mode': cset_mode, 'profiling': prof,
+                            'num_cores': rng.choice([1, 2, 4, 8, 64]),
+                            'cmd': rng.choice([['/x/exe', 'h', 'B1', '1'], ['perf', 'record', '-g', '/x/exe', 'h'],
+                                               ['/x/exe', '--', '-n', 'nice'], ['sudo', 'exe', 'h']])})
+    return out
+
+
+def check_exec(ck, cases):
+    """the wrapper's flags -> the real argument parser and `_exec` of denoise.py (sandboxed, `os.execvpe`
+    recorded, nothing executed) -> the argv the benchmark is finally started with"""
+    import drive_denoise_py as dpy
+    from rebench.denoise import paths as denoise_paths
+    denoise_path = denoise_paths.get_denoise()
+    ops, recs = [], []
+    for sc in cases:
+        cset = '/usr/bin/cset' if sc['cset_mode'] == 'path' else None
+        lookup = '/usr/bin/cset' if sc['cset_mode'] == 'lookup' else None
+        rep = {'kind': 'json', 'nice': 'yes' if sc['nice'] else 'no', 'shield': 'yes' if sc['shield'] else 'no',
+               'others': []}
+        sc2 = {'report': rep, 'no_denoise': False, 'cset': cset, 'profiling': sc['profiling'],
+               'num_cores': sc['num_cores']}
+        prefix = expected_prefix(sc2, {}, denoise_path)       # the property's wrapper, without `sudo`
+        argv = prefix[1:] + sc['cmd']
+        r = dpy.call_exec(argv, lookup_cset=lookup)
+        ck.impl_traces += 1
+        inp = dict(sc)
+        ck.count('exec:nice=%s shield=%s cset=%s' % (sc['nice'], sc['shield'], sc['cset_mode']))
+        if 'crash' in r or 'exec' not in r:
+            ck.oracle_fail('exec_as_granted', inp, r, {'what': 'no exec'})
+            continue
+        got = r['exec']['argv']
+        shielded = sc['shield'] and sc['cset_mode'] != 'none'
+        want = (['/usr/bin/cset', 'shield', '--exec', '--'] if shielded else []) + \
+            (['nice', '-n-20'] if sc['nice'] else []) + sc['cmd']
+        if got != want or r['exec']['cmd'] != want[0]:
+            ck.oracle_fail('exec_as_granted', inp, {'expected_argv': want, 'observed_argv': got, 'wrapper': argv},
+                           {'nice': sc['nice'], 'shield': sc['shield']})
+        n = sc['num_cores']
+        want_cs = '%d-%d' % (int(math.floor(math.log(n))), n - 1) if shielded else None
+        if r['exec']['core_set'] != want_cs:
+            ck.oracle_fail('exec_as_granted', inp, {'expected_core_set': want_cs, 'observed': r['exec']['core_set']},
+                           {'what': 'core set'})
+        if not r['exec']['env_kept']:
+            ck.oracle_fail('env_forwarded', inp, {'exec': r['exec']}, {'what': 'denoise exec dropped the environment'})
+        ops.append({'op': 'c20.exec', 'use_nice': sc['nice'], 'use_shielding': sc['shield'], 'profiling': sc['profiling'],
+                    'cset': cset, 'lookup': lookup, 'denoise': denoise_path, 'num_cores': str(n), 'n': n,
+                    'cmd': sc['cmd']})
+        recs.append((inp, prefix, r))
+        ck.case(nontrivial_key=('exec', json.dumps(sc, sort_keys=True)))
+    for (inp, prefix, r), ans in zip(recs, ck.model(ops)):
+        m_cs = None if ans['core_set'] is None else '%d-%d' % tuple(ans['core_set'])
+        flags = prefix[2:prefix.index('--num-cores')]
+        if ans['argv'] != r['exec']['argv'] or m_cs != r['exec']['core_set'] or ans['flag_words'] != flags:
+            ck.disagree('c20.exec: denoise.py exec (argument parser + _exec) vs RB.Denoise.execArgv', inp,
+                        {'argv': r['exec']['argv'], 'core_set': r['exec']['core_set'], 'flags': flags},
+                        {'argv': ans['argv'], 'core_set': m_cs, 'flags': ans['flag_words']}, TH_EXEC)
+
+
 # ------------------------------------------------------ denoise.py itself
 STANDARD = {'no_turbo': '0', 'perf_max_percent': '25', 'perf_sample_rate': '50000', 'perf_paranoid': '3',
             'shield': 'off'}      # docs/denoise.md: "the presumed standard state"; governors: powersave
@@ -797,6 +863,9 @@ def dispatch(ck, inputs):
     sess = [i for i in inputs if i['kind'] == 'session']
     for i in range(0, len(sess), 120):
         check_sessions(ck, sess[i:i + 120])
+    ex = [i for i in inputs if i['kind'] == 'exec']
+    if ex:
+        check_exec(ck, ex)
     dp = [i for i in inputs if i['kind'] == 'denoise_py']
     for i in range(0, len(dp), 400):
         check_denoise_py(ck, dp[i:i + 400])
@@ -835,6 +904,7 @@ def run(ck):
     except ImportError:
         pass
     dispatch(ck, gen_denoise_py_cases(ck, 300))
+    dispatch(ck, gen_exec_cases(ck))
     if not quick:
         dispatch(ck, gen_denoise_py_cases(ck, 0, exhaustive=True))
     check_shield(ck, 4096)
